@@ -18,8 +18,9 @@ import NetaddrVerif.Props.C03
 import NetaddrVerif.Props.C01
 import NetaddrVerif.Lemmas.C17LPlan
 import NetaddrVerif.Lemmas.C17LNmapGrammar
+import NetaddrVerif.Lemmas.C17LCidrGrammar
 namespace NV.C17
-open NV NV.Nmap NV.Text4 NV.AddrParse NV.NetParse NV.C17L.Plan NV.C17L.Grammar NV.C17L.PyLit
+open NV NV.Nmap NV.Text4 NV.AddrParse NV.NetParse NV.C17L.Plan NV.C17L.Grammar NV.C17L.PyLit NV.C17L.Cidr
 
 /-! ## errors arise only before the first item
 
@@ -105,6 +106,38 @@ theorem nmap_cidr_real (be : Backend) (fuel : Nat) (v p : Nat) (hv : v < 2 ^ 32)
 example : iterNmapRange (realForeign .platform) 4096 "192.0.2.9/30".toList =
     .ok [⟨4, 3221225992⟩, ⟨4, 3221225993⟩, ⟨4, 3221225994⟩, ⟨4, 3221225995⟩] :=
   nmap_cidr_real .platform 4096 3221225993 30 (by decide) (by decide) (by decide)
+
+/-- **CIDR form, every accepted spelling.**  `addr '/' prefix` where `addr` is in the grammar
+    `CidrAddr` with value `v` (one to four dot-separated `int()` literals 0..255, missing octets
+    zero: "10/8", "010.0.0.1/8", " 1.2.3.4/8") and `prefix` is an `int()` literal of `p`,
+    `1 ≤ p ≤ 32` ("/ 8", "/+8", "/0_8"): iteration yields, ascending, exactly the `2^(32-p)`
+    addresses of the block of `v`. -/
+theorem nmap_cidr_grammar (be : Backend) (fuel : Nat) (a t : List Char) (v p : Nat) (ha : CidrAddr a v)
+    (ht : IntLit t (p : Int)) (hp1 : 1 ≤ p) (hp : p ≤ 32) :
+    iterNmapRange (realForeign be) fuel (a ++ '/' :: t) =
+      .ok ((((List.range (2 ^ (32 - p))).map (v / 2 ^ (32 - p) * 2 ^ (32 - p) + ·)).take fuel).map (fun a => ⟨4, a⟩)) := by
+  have hns : '/' ∉ a := cidrAddr_noslash ha
+  have hv : v < 2 ^ 32 := cidrAddr_lt ha
+  have hmem : '/' ∈ a ++ '/' :: t := by simp
+  rw [nmap_cidr (realForeign be) fuel _ hmem, split1_app '/' _ _ hns]
+  simp only [(pyInt_iff t _).2 ht]
+  have hg : ¬ ¬ ((0 : Int) < (p : Int) ∧ (p : Int) < 33) := by omega
+  simp only [hg, if_false]
+  have hnet : (realForeign be).ipNetwork (a ++ '/' :: t) = .ok ⟨4, v, p⟩ :=
+    ((cidr_net_iff be a t p hns ht hp ⟨4, v, p⟩).2 ⟨v, ha, rfl⟩).1
+  simp only [hnet, ne_eq, not_true_eq_false, if_false]
+  have hfirst : (⟨4, v, p⟩ : Net).first = v / 2 ^ (32 - p) * 2 ^ (32 - p) := NV.netFirst_eq 32 v p hv
+  have hlast : (⟨4, v, p⟩ : Net).last = v / 2 ^ (32 - p) * 2 ^ (32 - p) + (2 ^ (32 - p) - 1) := NV.netLast_eq 32 v p
+  have hB := NV.two_pow_pos (32 - p)
+  rw [hfirst, hlast]
+  have : v / 2 ^ (32 - p) * 2 ^ (32 - p) + (2 ^ (32 - p) - 1) + 1 - v / 2 ^ (32 - p) * 2 ^ (32 - p) = 2 ^ (32 - p) := by
+    omega
+  rw [this]
+
+example : CidrAddr "010. 0".toList 167772160 := by
+  have h0 : NV.C17L.Cidr.Oct "010".toList 10 := ⟨(pyInt_iff _ _).1 (by decide), by decide⟩
+  have h1 : NV.C17L.Cidr.Oct " 0".toList 0 := ⟨(pyInt_iff _ _).1 (by decide), by decide⟩
+  exact CidrAddr.two h0 h1
 
 /-- **CIDR form, exception classes.**  For any spec containing '/': ValueError exactly when the
     text after the first '/' is not an `int()` literal (grammar `IntLit`: "x/y", a netmask
@@ -401,23 +434,22 @@ theorem nmap_yields_grammar (F : Foreign) (fuel : Nat) (spec : List Char) (h : O
     exact ⟨t0, t1, t2, t3, hsp, ha, (octetDen_iff t0 w0 _).2 m0, (octetDen_iff t1 w1 _).2 m1,
       (octetDen_iff t2 w2 _).2 m2, (octetDen_iff t3 w3 _).2 m3⟩
 
-/-- the strings `valid_nmap_range` accepts -/
-inductive NmapGrammar (be : Backend) : List Char → Prop
+/-- the strings `valid_nmap_range` accepts (no reference to any model function except C's
+    `inet_aton` in the last, degenerate alternative) -/
+inductive NmapGrammar : List Char → Prop
   /-- four comma/hyphen octet lists -/
-  | octets {spec : List Char} : OctetsSpec spec → NmapGrammar be spec
-  /-- `addr '/' prefix`: the prefix is an `int()` literal of a value in 1..32 and `IPNetwork`
-      (the C03 model: a dotted quad, or a partial / sloppy IPv4 address it expands) reads the
-      whole text as an IPv4 network -/
-  | cidr {a t : List Char} {p : Nat} {net : Net} : '/' ∉ a → IntLit t (p : Int) → 1 ≤ p → p ≤ 32 →
-      ipNetwork be (.str (a ++ '/' :: t)) false none 0 = .ok net → net.ver = 4 → NmapGrammar be (a ++ '/' :: t)
+  | octets {spec : List Char} : OctetsSpec spec → NmapGrammar spec
+  /-- `cidraddr '/' prefix`: one to four `int()`-literal octets, the prefix an `int()` literal
+      of a value in 1..32 -/
+  | cidr {a t : List Char} {v p : Nat} : CidrAddr a v → IntLit t (p : Int) → 1 ≤ p → p ≤ 32 → NmapGrammar (a ++ '/' :: t)
   /-- an RFC 4291 IPv6 address text -/
-  | addr6 {spec : List Char} {v : Nat} : C01G.Rfc4291 spec v → NmapGrammar be spec
+  | addr6 {spec : List Char} {v : Nat} : C01G.Rfc4291 spec v → NmapGrammar spec
   /-- a text with ':' that `inet_aton` reads as an IPv4 address (the ':' sits behind a blank) -/
-  | atonTail {spec : List Char} {v : Nat} : '/' ∉ spec → ':' ∈ spec → Text4.aton spec = some v → NmapGrammar be spec
+  | atonTail {spec : List Char} {v : Nat} : '/' ∉ spec → ':' ∈ spec → Text4.aton spec = some v → NmapGrammar spec
 
-/-- **`valid_nmap_range` = the grammar**, for every string -/
+/-- **`valid_nmap_range` = the grammar**, for every string and both back ends -/
 theorem nmap_valid_iff_grammar (be : Backend) (spec : List Char) :
-    validNmapRange (realForeign be) spec = .ok true ↔ NmapGrammar be spec := by
+    validNmapRange (realForeign be) spec = .ok true ↔ NmapGrammar spec := by
   constructor
   · intro h
     by_cases h1 : '/' ∈ spec
@@ -444,8 +476,10 @@ theorem nmap_valid_iff_grammar (be : Backend) (spec : List Char) :
             · rename_i hv
               have hz0 : 0 ≤ z := by omega
               obtain ⟨n, rfl⟩ := Int.eq_ofNat_of_zero_le hz0
+              have hlit := (pyInt_iff t _).1 hz
               rw [hel] at hn ⊢
-              exact .cidr hl ((pyInt_iff t _).1 hz) (by omega) (by omega) hn (by omega)
+              obtain ⟨v, hc, _⟩ := (cidr_net_iff be a t n hl hlit (by omega) net).1 ⟨hn, by omega⟩
+              exact .cidr hc hlit (by omega) (by omega)
     · by_cases h2 : ':' ∈ spec
       · have hit := nmap_colon_real be 1 (by omega) spec h1 h2
         rw [nmap_valid_iff_iter_ok _ 1 (by omega), hit] at h
@@ -461,14 +495,8 @@ theorem nmap_valid_iff_grammar (be : Backend) (spec : List Char) :
     | octets h =>
       obtain ⟨h1, h2⟩ := octetsSpec_chars h
       exact (nmap_octets_valid_iff _ spec h1 h2).2 h
-    | @cidr a t p net ha ht hp1 hp hn hv =>
-      have hmem : '/' ∈ a ++ '/' :: t := by simp
-      rw [nmap_valid_iff_iter_ok _ 1 (by omega), nmap_cidr _ 1 _ hmem, split1_app '/' _ _ ha]
-      simp only [(pyInt_iff t _).2 ht]
-      have hg : ¬ ¬ ((0 : Int) < (p : Int) ∧ (p : Int) < 33) := by omega
-      have hn' : (realForeign be).ipNetwork (a ++ '/' :: t) = .ok net := hn
-      have hv' : ¬ net.ver ≠ 4 := by omega
-      simp only [hg, if_false, hn', hv']
+    | @cidr a t v p ha ht hp1 hp =>
+      rw [nmap_valid_iff_iter_ok _ 1 (by omega), nmap_cidr_grammar be 1 a t v p ha ht hp1 hp]
     | addr6 h => exact (nmap_v6_real be 1 (by omega) spec _ h).2
     | atonTail h1 h2 ha =>
       rw [nmap_valid_iff_iter_ok _ 1 (by omega), nmap_colon_real be 1 (by omega) spec h1 h2, ha]
